@@ -8,11 +8,11 @@ def register(reg):
     contract(reg, f'{F}:safe_builtins.is_unsafe_builtin_entry', ['C17'], {'entry': 'tuple[str,Val]'}, ret='bool',
              ensures=[('property', 'implies(entry[0] in FORBIDDEN_BUILTINS, result)'),
                       ('property', "implies(entry[0].startswith('_'), result)")])
-    contract(reg, f'{F}:parse_expression', ['C17'], {'expression': 'str'}, ret='opaque:AstNode', verify=False, modifies=[],
+    contract(reg, f'{F}:parse_expression', ['C17'], {'expression': 'str'}, ret='opaque:AstNode', verify=False, modifies=[], pure=True,
              note='ast.parse (stdlib); an invalid expression gives Undefined, modelled by uf_is_undefined')
     contract(reg, f'{F}:check_eval_context', ['C17'], {'context': 'DictD'}, ret='None', verify=False, modifies=[],
              raises={'SecurityError': []}, note='checks the context entries (callables, names); bounded run B:C17')
     contract(reg, f'{F}:_check_safe_eval_cached', ['C17'], {'expression': 'str', 'context_items': 'DictD'}, ret='None', modifies=[],
-             invariants={0: ['all(spec_node_safe(nodes[k], context) for k in range(0, __i0))']},
+             invariants={0: ['all(spec_node_safe(__seq0[k], context) for k in range(0, __i0))']},
              ensures=[('property', 'all(spec_node_safe(n, context_items) for n in ast.walk(parse_expression(expression)))')],
              raises={'SecurityError': []})
